@@ -4,7 +4,7 @@
    binlog, or kill -9 + OpenEngine). [run (init m r) ops] ranges over ALL histories of writes, reads, binlog fsyncs,
    Commit callbacks, txLoop ticks, replica deliveries and kills, in WaitCommit / NoWaitCommit x master / replica. *)
 From Coq Require Import ZArith List Bool.
-From SH Require Import Engine.Model Engine.Proofs Engine.ProofsAck Engine.Theorems.
+From SH Require Import Engine.Model Engine.Proofs Engine.ProofsAck Engine.ProofsRead Engine.Theorems.
 Import ListNotations.
 Open Scope Z_scope.
 
@@ -53,18 +53,37 @@ Theorem C17_failed_callback_no_trace :
   forall s l f, flag f 1 = true \/ replica s = true -> step s (ODo l f) = s.
 Proof. exact failed_callback_no_trace. Qed.
 
-(* "readers never observe effects of events not yet in the binlog" — View reads the committed db, which is the
-   application of a prefix of the DURABLE binlog. Partial: the second reader path (a read-only Do on the write
-   connection, which in WaitCommit mode waits behind uncommitted writes) is modelled (ORead, ticket TR) and
-   checked by correspondence and by the Go oracle acked_read_saw_only_durable, but its acknowledgement is not
-   proved here. *)
-Theorem C17_view_sees_only_binlogged_partial :
+(* "readers never observe effects of events not yet in the binlog" — (1) View reads the committed db, which is the
+   application of a prefix of the DURABLE binlog (all modes, masters and replicas, replica commit position
+   allowed to lag behind what was handed to Apply). *)
+Theorem C17_view_sees_only_binlogged :
   forall m r ops,
   let s := run (init m r) ops in
   exists n, (n <= length (bl s))%nat /\
     kv (dbc s) = applyl (firstn n (bl s)) kv0 /\ off (dbc s) = bsize (firstn n (bl s)) /\
     off (dbc s) <= durable s <= bsize (bl s).
 Proof. exact view_sees_only_binlogged. Qed.
+
+(* (2) the other reader path: a read-only Do on the write connection. On a WaitCommit master it is acknowledged
+   (returns at once when waitQ is empty, otherwise when its readWait entry is released) only when everything it
+   saw is inside the committed, hence durable, binlog. TR id o v = read number id saw stored offset o and
+   contents v (C17_read_ticket_records_view). On a replica and in NoWaitCommit mode a read-only Do returns at
+   once with the contents of the open write transaction: events that ARE in the binlog but possibly not yet
+   durable (C17_replica_read_sees_uncommitted_witness) - the property text asks for "in the binlog" only. *)
+Theorem C17_acked_read_saw_only_durable :
+  forall ops id o v,
+  let s := run (init WaitCommit false) ops in
+  In (TR id o v) (acked s) ->
+  (exists n, (n <= length (bl s))%nat /\ bsize (firstn n (bl s)) = o /\ applyl (firstn n (bl s)) kv0 = v) /\
+  o <= comm s <= durable s.
+Proof. exact acked_read_saw_only_durable. Qed.
+
+Theorem C17_read_ticket_records_view :
+  forall s, mode s = WaitCommit ->
+  let t := TR (nread s) (off (dbt s)) (kv (dbt s)) in
+  (waitq s = [] -> acked (do_read s) = acked s ++ [t]) /\
+  (waitq s <> [] -> waitq (do_read s) = waitq s ++ [(0, true, t)] /\ acked (do_read s) = acked s).
+Proof. exact read_ticket_records_view. Qed.
 
 (* ---- non-vacuity: a WaitCommit master history with a service lev, an acknowledged write, a tick and an
    unacknowledged write; killed with 3 of 4 binlog events surviving *)
@@ -92,6 +111,25 @@ Proof. vm_compute. repeat split. discriminate. Qed.
 Example C17_nonvacuous_replica :
   let s := run (init NoWaitCommit true)
              [ODeliver (LUser 0 KAdd 2 1) true; ODeliver (LUser 0 KAdd 5 1) true; ODeliver LSvc false] in
-  rwait s = true /\ length (queue s) = 2%nat /\ dbt s = mkdb [2; 0; 0] 20 /\
-  dbt (step s (OCommit 3)) = mkdb [7; 0; 0] 60 /\ dbc (step s (OCommit 3)) = mkdb [2; 0; 0] 20.
+  rwait s = true /\ length (queue s) = 2%nat /\ dbt s = mkdb [2; 0; 0] 20 /\ durable s = 0 /\
+  step s (OCommit 3) = s /\   (* a Commit beyond the durable position is not a possible step *)
+  dbt (step (step s (OFsync 3)) (OCommit 3)) = mkdb [7; 0; 0] 60 /\
+  dbc (step (step s (OFsync 3)) (OCommit 3)) = mkdb [2; 0; 0] 20 /\
+  dbc (step (step s (OFsync 1)) (OCommit 1)) = mkdb [2; 0; 0] 20 /\ rwait (step (step s (OFsync 1)) (OCommit 1)) = false.
+Proof. vm_compute. repeat split. Qed.
+
+(* reads: one acknowledged at once on an idle master, one that waits behind an uncommitted write and is released
+   by the Commit callback *)
+Example C17_nonvacuous_reads :
+  let s := run (init WaitCommit false)
+             [ORead; ODo (LUser 0 KAdd 5 0) 0; ORead; OFsync 1; OCommit 1] in
+  acked s = [TR 0 0 [0; 0; 0]; TW 0; TR 1 16 [5; 0; 0]] /\ comm s = 16 /\
+  length (waitq (run (init WaitCommit false) [ORead; ODo (LUser 0 KAdd 5 0) 0; ORead])) = 2%nat.
+Proof. vm_compute. repeat split. Qed.
+
+(* a replica in WaitCommit mode acknowledges a read-only Do at once although the event it saw (offset 16) is beyond
+   the durable position (0) of the binlog it follows *)
+Example C17_replica_read_sees_uncommitted_witness :
+  let s := run (init WaitCommit true) [ODeliver (LUser 0 KAdd 5 0) false; ORead] in
+  acked s = [TR 0 16 [5; 0; 0]] /\ durable s = 0 /\ dbc s = mkdb [0; 0; 0] 0.
 Proof. vm_compute. repeat split. Qed.
